@@ -25,13 +25,16 @@ type target struct {
 	mutex   string
 	fields  []string
 	extraFn []string // free functions whose first parameter is *typ
+	anyBase bool     // track `x.field` / `x.mutex` for any identifier x, in every function of the file
+	name    string   // Lean definition name (default: typ with a lower-case initial)
 }
 
 var targets = []target{
-	{"storage/safeMap.go", "SafeMap", "mux", []string{"m"}, []string{"TranslateToMapOf"}},
-	{"storage/genericStack.go", "GenericStack", "mux", []string{"stack"}, nil},
-	{"storage/fifoMapCache.go", "FifoMapCache", "currentPartitionMux", []string{"partitions", "valuePartitionIndex", "currentPartitionId", "maxPartitions", "partitionCapacity"}, nil},
-	{"workqueue/queue.go", "Queue", "errSubScriberMux", []string{"errorSubscribers"}, nil},
+	{"storage/safeMap.go", "SafeMap", "mux", []string{"m"}, []string{"TranslateToMapOf"}, false, ""},
+	{"storage/genericStack.go", "GenericStack", "mux", []string{"stack"}, nil, false, ""},
+	{"storage/fifoMapCache.go", "FifoMapCache", "currentPartitionMux", []string{"partitions", "valuePartitionIndex", "currentPartitionId", "maxPartitions", "partitionCapacity"}, nil, false, ""},
+	{"workqueue/queue.go", "Queue", "errSubScriberMux", []string{"errorSubscribers"}, nil, false, ""},
+	{"publisher/publication.go", "", "sendMux", []string{"receiveCh"}, nil, true, "subscriberChannel"},
 }
 
 type access struct{ mode, kind, field string }
@@ -65,7 +68,7 @@ func (w *walker) isRecvField(e ast.Expr) (string, bool) {
 		return "", false
 	}
 	id, ok := sel.X.(*ast.Ident)
-	if !ok || id.Name != w.recv {
+	if !ok || (id.Name != w.recv && !w.t.anyBase) {
 		return "", false
 	}
 	return sel.Sel.Name, true
@@ -124,6 +127,10 @@ func (w *walker) expr(e ast.Expr, write bool) {
 			return
 		}
 		// builtin delete(recv.f, k) writes f
+		if id, ok := x.Fun.(*ast.Ident); ok && id.Name == "close" && len(x.Args) == 1 {
+			w.expr(x.Args[0], true)
+			return
+		}
 		if id, ok := x.Fun.(*ast.Ident); ok && id.Name == "delete" && len(x.Args) > 0 {
 			w.expr(x.Args[0], true)
 			for _, a := range x.Args[1:] {
@@ -260,7 +267,11 @@ func (w *walker) stmt(s ast.Stmt) {
 			w.stmt(st)
 		}
 	case *ast.SendStmt:
-		w.expr(x.Chan, false)
+		if f, ok := w.isRecvField(x.Chan); ok && w.tracked(f) {
+			w.add(access{w.held, "send", f})
+		} else {
+			w.expr(x.Chan, false)
+		}
 		w.expr(x.Value, false)
 	case *ast.DeclStmt:
 		if gd, ok := x.Decl.(*ast.GenDecl); ok {
@@ -349,7 +360,10 @@ func main() {
 			}
 			recv, ok := recvOf(fd, t)
 			if !ok {
-				continue
+				if !t.anyBase {
+					continue
+				}
+				recv = "_"
 			}
 			w := &walker{recv: recv, t: t, held: "N", methods: methods}
 			w.block(fd.Body)
@@ -359,7 +373,10 @@ func main() {
 			fns = append(fns, fnShape{fd.Name.Name, w.sections})
 		}
 		sort.Slice(fns, func(i, j int) bool { return fns[i].name < fns[j].name })
-		lower := strings.ToLower(t.typ[:1]) + t.typ[1:]
+		lower := t.name
+		if lower == "" {
+			lower = strings.ToLower(t.typ[:1]) + t.typ[1:]
+		}
 		fmt.Printf("\ndef %s : List FnShape := [\n", lower)
 		for i, f := range fns {
 			secs := []string{}
